@@ -170,8 +170,7 @@ def check(run):
     for k in (0, len(cases) // 2, len(cases) - 1):
         run.sample({"case": cases[k][:200], "expected": expect[k][:200], "impl": io[k][:200]})
     report_diffs(run, diffs, "coq/Codec.v", "the codec generated by zvt_derive", "codec")
-    if any(not v.get("no_failing_input_found") for v in run.violations):
-        run.violations = [v for v in run.violations if not v.get("no_failing_input_found")]
+    vlib.prefer_concrete(run)
     return vlib.finish(run, trusted_base=TB,
                        assumptions=["the specification tables are my transcription (documents not available offline)",
                                     "the order of bitmaps on the wire is not part of the specification"])
